@@ -15,6 +15,10 @@ type input struct {
 	Defines []string
 	IP      []string // -I directories relative to the root ("" = the root)
 	Stream  string   // which generator made it
+	// UseStdin: the process's standard input holds Stdin while this input is
+	// parsed (Main == "-", or some file says `include -`)
+	UseStdin bool
+	Stdin    string
 	// generator's knowledge (oracle), when it has any
 	HasExpect   bool
 	ExpectPos   posT
